@@ -214,6 +214,53 @@ theorem calcRoot_length (last : Nat) : ∀ (c : Hash) (i : Nat) (p : List Hash) 
             have := ih (last / 2) (by omega) _ _ _ _ hacc
             simp [hodd, hlt, this]
 
+
+/-- For a fixed `(index, size)` the inclusion loop is injective: two runs that reach the same root started
+from the same node with the same audit path, or a collision is exhibited. -/
+theorem calcRoot_unique (hlen : HashLen H) (last : Nat) : ∀ (c c' : Hash) (i : Nat) (p p' : List Hash) (r : Hash),
+    c.length = 32 → c'.length = 32 → (∀ y ∈ p, y.length = 32) → (∀ y ∈ p', y.length = 32) →
+    calcRoot H c i last p = .ok r → calcRoot H c' i last p' = .ok r → (c = c' ∧ p = p') ∨ Collision H := by
+  induction last using Nat.strongRecOn with
+  | _ last ih =>
+    intro c c' i p p' r hc hc' hp hp' h1 h2
+    by_cases h0 : last = 0
+    · subst h0
+      rw [calcRoot_zero] at h1 h2
+      split at h1
+      · split at h2
+        · rename_i e1 e2
+          simp at h1 h2 e1 e2
+          left; exact ⟨by rw [h1, h2], by rw [e1, e2]⟩
+        · simp at h2
+      · simp at h1
+    · match p, p' with
+      | [], _ => rw [calcRoot_nil H c i last h0] at h1; simp at h1
+      | _ :: _, [] => rw [calcRoot_nil H c' i last h0] at h2; simp at h2
+      | s :: rest, s' :: rest' =>
+        rw [calcRoot_succ H c s i last rest h0] at h1
+        rw [calcRoot_succ H c' s' i last rest' h0] at h2
+        have hs : s.length = 32 := hp s (by simp)
+        have hs' : s'.length = 32 := hp' s' (by simp)
+        have hr : ∀ y ∈ rest, y.length = 32 := fun y hy => hp y (by simp [hy])
+        have hr' : ∀ y ∈ rest', y.length = 32 := fun y hy => hp' y (by simp [hy])
+        by_cases hodd : i % 2 = 1
+        · simp only [hodd, ↓reduceIte] at h1 h2
+          rcases ih (last / 2) (by omega) _ _ _ _ _ r (hlen _) (hlen _) hr hr' h1 h2 with ⟨e1, e2⟩ | hcol
+          · rcases hashChildren_inj H (by rw [hs, hs']) e1 with ⟨a, b⟩ | hcol
+            · left; exact ⟨b, by rw [a, e2]⟩
+            · exact Or.inr hcol
+          · exact Or.inr hcol
+        · simp only [hodd, ↓reduceIte] at h1 h2
+          by_cases hlt : i < last
+          · simp only [hlt, ↓reduceIte] at h1 h2
+            rcases ih (last / 2) (by omega) _ _ _ _ _ r (hlen _) (hlen _) hr hr' h1 h2 with ⟨e1, e2⟩ | hcol
+            · rcases hashChildren_inj H (by rw [hc, hc']) e1 with ⟨a, b⟩ | hcol
+              · left; exact ⟨a, by rw [b, e2]⟩
+              · exact Or.inr hcol
+            · exact Or.inr hcol
+          · simp only [hlt, ↓reduceIte] at h1 h2
+            exact ih (last / 2) (by omega) _ _ _ _ _ r hc hc' hp hp' h1 h2
+
 /-- `VerifyLeafHashInclusion` is sound: an accepted proof for `(leaf hash, index, size, root)` where `root`
 is the RFC 6962 root of a list `D` of `size` leaf hashes means the leaf hash IS `D[index]`, or a collision. -/
 theorem verifyInclusion_sound (hlen : HashLen H) (D : List Hash) (lh : Hash) (i n : Nat) (p : List Hash) (root : Hash)
@@ -234,5 +281,21 @@ theorem verifyInclusion_sound (hlen : HashLen H) (D : List Hash) (lh : Hash) (i 
         subst this
         rw [hroot] at hr
         exact calcRoot_sound H hlen (n - 1) D lh i p (by omega) (by omega) hlh hD hp hr
+
+
+theorem verifyInclusion_calcRoot (lh : Hash) (i n : Nat) (p : List Hash) (root : Hash)
+    (h : verifyLeafHashInclusion H lh i p root n = .ok ()) : calcRoot H lh i (n - 1) p = .ok root := by
+  unfold verifyLeafHashInclusion at h
+  split at h
+  · simp at h
+  · cases hc : calcRoot H lh i (n - 1) p with
+    | error e => simp [hc] at h
+    | ok r =>
+      simp only [hc] at h
+      split at h
+      · simp at h
+      · rename_i hne
+        have : r = root := by simpa using hne
+        rw [this]
 
 end Poly.Proofs.MerkleVerify
